@@ -208,7 +208,11 @@ def task(t):
     rep = run.Report()
     rec = sweep.Rec(rep)
     env.scratch_dir()
-    names = names_for(n, env.SEED)
+    if isinstance(n, (tuple, list)):
+        names = tuple(n)        # explicit (unusual) variable names
+        n = len(names)
+    else:
+        names = names_for(n, env.SEED)
     U = Universe(names)
     order = sweep.orders(names)[oi]
     seq = sorted(order, key=order.get)
@@ -311,9 +315,24 @@ def dispatch(t):
 EXTRAS = [(), ((0, 'e0'),), ((1, 'e1'), (3, 'e2')), ((2, 'e3'),), ((0, 'e4'), (1, 'e5'))]
 
 
+# names the lexer must treat as plain names: header words without their dot, digits,
+# underscores, primes, dots, at-signs (the NAME token of the DDDMP lexer)
+TRICKY = ('add', 'mode', 'ids', 'dd', 'ver', 'nvars', 'permids', 'nroots', 'varinfo',
+          'x_1', "y'", 'z.w', 'n@3', 'Tt', '_u', 'rootids', 'nodes', 'end', 'suppvarnames')
+
+
 def plan(tier):
     ts = []
     allm = tuple(range(len(MODES)))
+    k = 0
+    for a in range(0, len(TRICKY) - 2, 1 if tier == 'thorough' else 2):
+        trio = (TRICKY[a], TRICKY[(a + 7) % len(TRICKY)], TRICKY[(a + 13) % len(TRICKY)])
+        if len(set(trio)) < 3:
+            continue
+        k += 1
+        named = tuple(i for i, m_ in enumerate(MODES) if m_[2] or m_[3])
+        ts.append(('t', trio, k % 6, ((0b01101001,), (0b11100010, 0b00010111)), named,
+                   tuple(EXTRAS[:2]), 0, 1, None))
     if tier == 'quick':
         for si in range(16):
             ts.append(('t', 3, 0, 'singles', allm, tuple(EXTRAS[:1]), si, 16, None))
